@@ -103,8 +103,8 @@ def ref_dependencies(schema):
     for d in schema["defs"]:
         owner[d["name"]] = d["name"]
         if d["k"] == "enum":
-            for n, _ in d["members"]:
-                owner[n] = d["name"]
+            for m in d["members"]:
+                owner[m[0]] = d["name"]
     deps = {}
     for d in schema["defs"]:
         used = set()
@@ -116,10 +116,16 @@ def ref_dependencies(schema):
         elif d["k"] == "typedef":
             if d["type"] in owner:
                 used.add(owner[d["type"]])
+        elif d["k"] == "enum":
+            for m in d["members"]:
+                if len(m) > 2 and m[2] in owner:
+                    used.add(owner[m[2]])
         elif d["k"] == "union":
             for a in d["arms"]:
                 if a["type"] in owner:
                     used.add(owner[a["type"]])
+                if a.get("dtext") in owner:
+                    used.add(owner[a["dtext"]])
         elif d["k"] == "struct":
             for m in d["members"]:
                 if m["type"] in owner:
@@ -291,7 +297,7 @@ def simplify_plan(plan, same):
         defs = best["schema"]["defs"]
         for i in range(len(defs) - 1, -1, -1):
             d = defs[i]
-            names = {d["name"]} | (set(n for n, _ in d["members"]) if d["k"] == "enum" else set())
+            names = {d["name"]} | (set(m[0] for m in d["members"]) if d["k"] == "enum" else set())
             if any(names & _refs(o) for o in defs if o is not d):
                 continue
             cand = copy.deepcopy(best)
